@@ -31,6 +31,7 @@ func createASTTypeExpr(pkg string, t types.Type, varPool *VarPool, imports map[s
 		}, nil
 	case *types.Named:
 		name := typ.Obj().Name()
+		var namedExpr ast.Expr = ast.NewIdent(name)
 		if objPkg := typ.Obj().Pkg(); objPkg != nil && objPkg.Path() != pkg {
 			// For types from other packages, create a selector expression
 			// Format: package.TypeName
@@ -49,13 +50,29 @@ func createASTTypeExpr(pkg string, t types.Type, varPool *VarPool, imports map[s
 				}
 			}
 
-			return &ast.SelectorExpr{
+			namedExpr = &ast.SelectorExpr{
 				X:   ast.NewIdent(pkgName),
 				Sel: ast.NewIdent(name),
-			}, nil
+			}
 		}
 
-		return ast.NewIdent(name), nil
+		// An instantiated generic type is spelled with its type arguments: Name[Arg, ...]
+		if typeArgs := typ.TypeArgs(); typeArgs != nil && typeArgs.Len() > 0 {
+			argExprs := make([]ast.Expr, 0, typeArgs.Len())
+			for i := 0; i < typeArgs.Len(); i++ {
+				argExpr, err := createASTTypeExpr(pkg, typeArgs.At(i), varPool, imports)
+				if err != nil {
+					return nil, fmt.Errorf("type argument %d: %w", i, err)
+				}
+				argExprs = append(argExprs, argExpr)
+			}
+			if len(argExprs) == 1 {
+				return &ast.IndexExpr{X: namedExpr, Index: argExprs[0]}, nil
+			}
+			return &ast.IndexListExpr{X: namedExpr, Indices: argExprs}, nil
+		}
+
+		return namedExpr, nil
 	case *types.Alias:
 		name := typ.Obj().Name()
 		if objPkg := typ.Obj().Pkg(); objPkg != nil && objPkg.Path() != pkg {
